@@ -12,6 +12,66 @@ use verif_core::oracle::refcodec::*;
 use verif_core::proptest::prelude::*;
 use verif_core::*;
 
+/// A user-supplied implementation of the crate's `Crypto` / `NetworkCrypto` traits that honours exactly
+/// the documented contract — one 16-byte block per call (think of a hardware AES engine with a single
+/// 128-bit data register) — built on the harness's own AES-128 / CMAC. A call with any other length is a
+/// breach of that contract by the caller and panics (reported like any other panic).
+pub struct StrictCrypto(verif_core::oracle::aes::Aes128);
+
+impl StrictCrypto {
+    pub fn new(key: &[u8; 16]) -> Self {
+        StrictCrypto(verif_core::oracle::aes::Aes128::new(key))
+    }
+}
+
+impl lorawan::keys::Crypto for StrictCrypto {
+    fn encrypt_block(&self, block: &mut [u8]) {
+        assert!(block.len() == 16, "Crypto::encrypt_block called with {} bytes; the trait documents exactly 16", block.len());
+        let b: [u8; 16] = block.try_into().unwrap();
+        block.copy_from_slice(&self.0.encrypt(&b));
+    }
+    fn calculate_mic(&self, b0: &[u8], data: &[u8]) -> [u8; 4] {
+        let mut m = b0.to_vec();
+        m.extend_from_slice(data);
+        let t = verif_core::oracle::aes::cmac(&self.0, &m);
+        [t[0], t[1], t[2], t[3]]
+    }
+}
+
+impl lorawan::keys::NetworkCrypto for StrictCrypto {
+    fn decrypt_block(&self, block: &mut [u8]) {
+        assert!(block.len() == 16, "NetworkCrypto::decrypt_block called with {} bytes; the trait documents exactly 16", block.len());
+        let b: [u8; 16] = block.try_into().unwrap();
+        block.copy_from_slice(&self.0.decrypt(&b));
+    }
+}
+
+/// Builds `d` with the user-supplied crypto implementation.
+pub fn repo_build_data_strict(d: &DataDesc, nwk: &[u8; 16], app: Option<&[u8; 16]>, buflen: usize) -> Result<Vec<u8>, Error> {
+    let payload: Payload<'_> = match &d.payload {
+        RefPayload::None => Payload::None,
+        RefPayload::Data { port, data } => Payload::Data { f_port: NonZeroU8::new(*port).expect("generator never makes Data on port 0"), data },
+        RefPayload::Mac(c) => Payload::MacCommands(c),
+    };
+    let frame = DataFrame { frame_type: ftype_to_repo(d.ftype), dev_addr: DevAddr::from_value(d.dev_addr), adr: d.adr, adr_ack_req: d.adr_ack_req, ack: d.ack, f_pending: d.f_pending, fcnt: d.fcnt, f_opts: &d.fopts, payload };
+    let mut buf = vec![0xA5u8; buflen];
+    let n = StrictCrypto::new(nwk);
+    let a = app.map(StrictCrypto::new);
+    frame.build_into(&mut buf, &n, a.as_ref()).map(|b| b.to_vec())
+}
+
+pub fn repo_build_join_request_strict(d: &JoinReqDesc, key: &[u8; 16]) -> Result<Vec<u8>, Error> {
+    let jr = JoinRequest { join_eui: JoinEui::from_value(d.join_eui), dev_eui: DevEui::from_value(d.dev_eui), dev_nonce: DevNonce::from_value(d.dev_nonce) };
+    let mut buf = vec![0xA5u8; 64];
+    jr.build_into(&mut buf, &StrictCrypto::new(key)).map(|b| b.to_vec())
+}
+
+pub fn repo_build_join_accept_strict(d: &JoinAcceptDesc, key: &[u8; 16]) -> Result<Vec<u8>, Error> {
+    let ja = JoinAccept { join_nonce: JoinNonce::from_value(d.join_nonce), net_id: NetId::from_value(d.net_id), dev_addr: DevAddr::from_value(d.dev_addr), dl_settings: DLSettings::new(d.dl_settings), rx_delay: d.rx_delay, c_f_list: repo_cflist(&d.cflist).expect("typed CFList") };
+    let mut buf = vec![0xA5u8; 64];
+    ja.build_into(&mut buf, &StrictCrypto::new(key)).map(|b| b.to_vec())
+}
+
 pub fn ftype_to_repo(f: FType) -> DataFrameType {
     match f {
         FType::UnconfUp => DataFrameType::UnconfirmedUp,
